@@ -3,7 +3,8 @@
 Oracle on the REAL `BatteryDistributionAlgorithm.distribute_power` (run on exact rationals and on floats) for
 consistent data and requests admitted by the bounds the pool ADVERTISES (PowerBoundsCalculator; the reference
 formula is sampled against the real calculator), independent of the Lean model:
-  sum        : set-points + reported remainder = request (1e-6 relative to max(1, |request|));
+  sum        : set-points + reported remainder = request (1e-7 relative to max(1, |request|): exact outside the known
+               regimes up to the code's own 1e-9 tolerances; MW/GW-scale requests with W-scale overshoots are generated);
   sign       : every set-point has the sign of the request or is zero;
   remainder  : the remainder has the request's sign and does not exceed it in magnitude;
   reported-vs-commanded : `BatteryManager._distribute_power` (fake API client with scripted outcomes per inverter:
